@@ -174,6 +174,20 @@ def execReturn (m : Pomdp) (vf : VF) : Nat → Nat → (Nat → Rat) → Rat
     let e := entry vf (h+1) id
     rewardB m b e.action + m.disc * sumTo m.O (fun o => execReturn m vf h (link e o) (tau m b e.action o))
 
+/-- a belief given as a list, read as a function -/
+def ofList (l : List Rat) : Nat → Rat := fun s => l.getD s 0
+
+/-- `tau` on list beliefs: the successor belief is materialised (a chain of `tau` closures would be re-evaluated
+    exponentially often in the horizon) -/
+def tauL (m : Pomdp) (b : List Rat) (a o : Nat) : List Rat := (List.range m.S).map (tau m (ofList b) a o)
+
+/-- `execReturn` on list beliefs: what the driver runs (`execFast_eq`) -/
+def execFast (m : Pomdp) (vf : VF) : Nat → Nat → List Rat → Rat
+  | 0, id, b => dot m.S (ofList b) (val (entry vf 0 id))
+  | h+1, id, b =>
+    let e := entry vf (h+1) id
+    rewardB m (ofList b) e.action + m.disc * sumTo m.O (fun o => execFast m vf h (link e o) (tauL m b e.action o))
+
 /-- the POMDP as the Projecter sees it: observation columns it deems impossible carry no mass -/
 def cutModel (m : Pomdp) : Pomdp :=
   { m with Ob := fun a s o => if possible m a o then m.Ob a s o else 0 }
